@@ -1,4 +1,4 @@
-package templ
+package PKGNAME
 
 // Reference HTML5 tokenizer fragments used as oracles (WHATWG HTML, section 13.2.5):
 // character-reference decoding for the references an escaper may emit, the data state
